@@ -34,6 +34,7 @@ type ownedReader struct {
 	failData  bool // deliver the last bytes together with the error
 	transient bool // the error is returned once; later reads succeed again
 	failed    bool
+	eofData   bool // the last bytes are delivered together with io.EOF (as the io.Reader contract allows)
 	barriers  []int
 	bi        int
 	onBarrier func(k int)
@@ -88,6 +89,9 @@ func (r *ownedReader) Read(p []byte) (int, error) {
 		r.failed = true
 		return n, errInjected
 	}
+	if r.eofData && r.pos >= len(r.data) {
+		return n, io.EOF
+	}
 	return n, nil
 }
 
@@ -123,6 +127,7 @@ type C03Case struct {
 	FailAt   int    `json:"fail_at"`
 	FailData bool   `json:"fail_data,omitempty"`
 	Transient bool  `json:"transient,omitempty"` // the reader fails once and then goes on delivering
+	EOFData  bool   `json:"eof_data,omitempty"`  // the reader returns its last bytes together with io.EOF
 	Prog     int    `json:"prog"`
 	Barrier  bool   `json:"barrier"` // check incrementality with barriers
 	What     string `json:"what"`
@@ -193,7 +198,7 @@ func c03Check(c *C03Case) string {
 		return s
 	}
 	var out bytes.Buffer
-	rd := &ownedReader{data: data, chunks: c.Chunks, failAt: -1, failData: c.FailData, transient: c.Transient}
+	rd := &ownedReader{data: data, chunks: c.Chunks, failAt: -1, failData: c.FailData, transient: c.Transient, eofData: c.EOFData}
 	if ioFault {
 		rd.failAt = c.FailAt
 	}
@@ -238,7 +243,7 @@ func c03Check(c *C03Case) string {
 			if len(c.Chunks) == 1 && c.Chunks[0] == 1 {
 				other = nil
 			}
-			rd2 := &ownedReader{data: data, chunks: other, failAt: rd.failAt, failData: c.FailData, transient: c.Transient}
+			rd2 := &ownedReader{data: data, chunks: other, failAt: rd.failAt, failData: c.FailData, transient: c.Transient, eofData: c.EOFData}
 			var out2 bytes.Buffer
 			o2 := runWithReader(p, rd2, &out2)
 			if o2.Class != o.Class || o2.Msg != o.Msg || o2.FileName != o.FileName {
@@ -469,7 +474,7 @@ func TestC03(t *testing.T) {
 		try := func(c *C03Case, labels ...string) {
 			msg := c03Check(c)
 			nt := nvals >= 2
-			rec.Case(fmt.Sprintf("%q|%v|%d|%v|%v|%d|%v", string(c.Data), c.Chunks, c.FailAt, c.FailData, c.Transient, c.Prog, c.Barrier), nt, labels...)
+			rec.Case(fmt.Sprintf("%q|%v|%d|%v|%v|%v|%d|%v", string(c.Data), c.Chunks, c.FailAt, c.FailData, c.Transient, c.EOFData, c.Prog, c.Barrier), nt, labels...)
 			rec.Sample(func() interface{} {
 				return map[string]interface{}{"bytes": string(c.Data), "chunks": c.Chunks, "fail_at": c.FailAt, "what": c.What, "program": c03Programs[c.Prog].src}
 			})
@@ -482,9 +487,12 @@ func TestC03(t *testing.T) {
 		try(&C03Case{Data: ast.BS(stream), Chunks: chunks, FailAt: -1, Prog: prog, Barrier: true, What: "well-formed stream, barriers"}, "no-fault", "barriers")
 		try(&C03Case{Data: ast.BS(stream), Chunks: []int{1}, FailAt: -1, Prog: prog, What: "well-formed stream, 1-byte reads"}, "no-fault", "one-byte-reads")
 		try(&C03Case{Data: ast.BS(stream), Chunks: nil, FailAt: -1, Prog: prog, What: "well-formed stream, one read"}, "no-fault", "one-read")
+		try(&C03Case{Data: ast.BS(stream), Chunks: nil, FailAt: -1, EOFData: true, Prog: prog, What: "well-formed stream, one read that also reports end of input"}, "no-fault", "last-bytes-with-eof")
+		try(&C03Case{Data: ast.BS(stream), Chunks: chunks, FailAt: -1, EOFData: true, Prog: prog, Barrier: true, What: "well-formed stream, the last read also reports end of input"}, "no-fault", "last-bytes-with-eof")
 		if len(stream) <= maxEnum {
 			for k := 0; k <= len(stream); k++ {
 				try(&C03Case{Data: ast.BS(stream[:k]), Chunks: chunks, FailAt: -1, Prog: prog, What: fmt.Sprintf("truncation at byte %d", k)}, "truncation")
+				try(&C03Case{Data: ast.BS(stream[:k]), Chunks: chunks, FailAt: -1, EOFData: true, Prog: prog, What: fmt.Sprintf("truncation at byte %d, the last read also reports end of input", k)}, "truncation", "last-bytes-with-eof")
 				try(&C03Case{Data: ast.BS(stream), Chunks: chunks, FailAt: k, Prog: prog, What: fmt.Sprintf("read error at byte %d", k)}, "read-error")
 				if k > 0 {
 					try(&C03Case{Data: ast.BS(stream), Chunks: chunks, FailAt: k, FailData: true, Prog: prog, What: fmt.Sprintf("read error delivered with the bytes up to %d", k)}, "read-error-with-data")
